@@ -49,9 +49,9 @@ CLAIMED = {
    technique="Coq proof (integer division facts) + differential correspondence with injected clock",
    design="5 C15"),
  "C12": dict(
-   text="Coq theorems for both halves. Engine: for every sequence of one-character tests and '.*' (what a glob translates to) and every subject, Oniguruma-style first-match backtracking followed by the full-length test equals whole-string fnmatch - no bound on lengths or stars. Parser: for every well-formed structured glob (ordinary and escaped characters, ?, *, bracket expressions of characters, ranges and named classes, optionally negated) glob_to_regex/extract_bracket_expr/regex_push_literal write the expected regex text and the engine's reading of that text is the glob's meaning, so glob_match (show g) s = fnmatch (sem g) s; a final unescaped backslash matches nothing and a final lone '[' is literal. Outside the well-formed fragment (']' or '-' as list members, unclosed brackets in the middle, collating symbols) the executable model is validated on every run against the implementation (regex text and verdict through the hook) and against glibc fnmatch on the guarded domain, exhaustively over short patterns x subjects.",
-   note="Oniguruma's reading of the regex text is a model (validated against the real engine on every run). The irregular bracket forms are validated, not proved. glibc fnmatch is the executable reference where the property fixes the answer (no backslash/leading ^ in brackets, no collating symbols; case folding of ranges/classes left open).",
-   technique="Coq proof (engine: induction with the shift lemma; parser: induction over structured globs) + exhaustive small-domain differential correspondence",
+   text="Coq theorems for both halves. Engine: since repair 7a55db0 a glob is matched piece by piece over the set of positions the pieces so far can reach (no backtracking); the model [nfa] is proved equal to whole-string fnmatch for every sequence of one-character tests and '*' and every subject, no bound on lengths or stars (GlobNFA.v). The former engine (one regular expression, first-match backtracking plus full-length test) is kept as a theorem about complete backtracking; the real engine's retry limit made it panic, which is what the repair removed. Parser: for every well-formed structured glob (ordinary and escaped characters, ?, *, bracket expressions of characters, ranges and named classes other than [:punct:], optionally negated) the translation writes the expected regex pieces and the engine's reading of them is the glob's meaning, so glob_match (show g) s = fnmatch (sem g) s; a final unescaped backslash matches nothing and a final lone '[' is literal. -name tests the last component of the path as spelled (Paths.name_subject, three theorems). Outside the well-formed fragment (']' or '-' as list members, unclosed brackets in the middle, [:punct:] which the translation spells out, collating symbols) the executable model is validated on every run against the implementation (regex text and verdict through the hook) and against glibc fnmatch on the guarded domain, exhaustively over short patterns x subjects.",
+   note="Oniguruma's reading of a one-character regex piece is a model (validated against the real engine on every run). The irregular bracket forms are validated, not proved. glibc fnmatch is the executable reference where the property fixes the answer (no backslash/leading ^ in brackets, no collating symbols; case folding of ranges/classes left open).",
+   technique="Coq proof (engine: invariant of the reachable-position set; parser: induction over structured globs) + exhaustive small-domain differential correspondence",
    design="5 C12"),
  "C07": dict(
    text="Coq theorems: the printed path is the starting point as given followed by the names joined by single '/' (none added after a trailing '/'), and a stream of paths each followed by its delimiter is read back by the byte-delimited reader as exactly those paths, in order, for every chunking; with C04's losslessness every path reaches the command exactly once. Tied to /repo by in-process -print0/-print on trees of hostile names under nine spellings of the starting point and by real find | xargs -0 pipelines with a recorder.",
